@@ -12,8 +12,9 @@ array commands read before the first protocol error, they are written in request
 the reply of the k-th command), and nothing that follows a protocol error is executed (`nothing_after_error`).
 Tie to the code: the serve engine decodes the raw bytes `Manager.Handle` wrote with that same verified decoder (every byte must
 be consumed) and compares value by value; the exec engine does the same for every executor's reply.
-Partial: that every executor's *model* reply is `WF` (simple strings/errors without CR/LF) is checked per family by the
-correspondence (the decoder rejects anything else), not yet proved as one theorem over the command table (`C03_exec_wf`). -/
+That every executor's *model* reply is `WF` is `Exec.Global.C03_exec_wf` (Props/Global.lean); the composition over BYTES — a
+pipeline encoded, parsed, served, the written stream decoded by `Resp.decodeAllReplies` gives exactly one reply per command, the
+k-th that of the k-th command in the state left by the first k−1 — is `Exec.C03.pipeline_replies` (Props/C03Pipeline.lean). -/
 namespace Exec
 open Resp (Reply Bytes)
 
